@@ -1,7 +1,8 @@
 (* request handlers of the roam model driver (C20)
    roam <pattern> <radius> <nodwell> <detect_nil> <self> <has_old> { <id> <in_old> <in_new> <d_old> <d_new> <d_rev> }*
    geometry index 0 = previous position, 1 = new position, 2+k = k-th object of the roam
-   collection (in the order given); distances are decimal integers ordering like the float64s *)
+   collection (in the order given); distances are decimal integers ordering like the float64s
+   isglob <pattern>   Model.Roam.is_glob (glob.IsGlob), "1" / "0" *)
 open Model
 open Conv
 
@@ -35,6 +36,7 @@ let handle (toks : string list) : string =
            "ok" ^ String.concat "" (List.map (fun (k, m) ->
              Printf.sprintf " %s:%s:%s" (match k with Nearby -> "nearby" | Faraway -> "faraway")
                (hex_of_bytes m.m_id) (string_of_z m.m_meters)) l))
+  | ["isglob"; pat] -> if is_glob (bytes_of_hex pat) then "1" else "0"
   | ["round"; d] -> string_of_z (round_mm (z_of_string d))
   | "scan" :: mid :: scan :: ids ->
       "ok" ^ String.concat "" (List.map (fun (self, i) -> (if self then " self:" else " ") ^ hex_of_bytes i)
